@@ -1,5 +1,6 @@
 import Norad.Lemmas.C10
 import Norad.Lemmas.Plist
+import Norad.Generated.KernConsts
 /-!
 # C10 — loading and saving are deterministic (the kerning / feature upconversion part)
 
@@ -125,6 +126,55 @@ example : featuresText none none (some [("liga".toList, "L".toList), ("kern".toL
 
 end Kern
 
+/-! ## source-level tie: which collections the code iterates
+
+`Generated.KernConsts.iteratedCollections` is re-extracted from the source on every run: the declared types of
+`groups_first` / `groups_second`, of the feature-block map (and whether its collected keys are `.sort()`ed),
+of the `Groups` / `Kerning` aliases and of `Layer.contents`. -/
+namespace Kern
+open StrMap
+
+/-- **source_iteration_is_ordered**: every collection the source iterates on a result-affecting path of the
+    two upconversions and of the three map-shaped plists is an ordered one.  Re-introducing a `HashSet` /
+    an unsorted `HashMap` walk breaks this obligation (and the sampling finds the input). -/
+theorem source_iteration_is_ordered :
+    ∀ e ∈ Generated.KernConsts.iteratedCollections, e.2 ∈ orderedCollections := by decide
+
+/-- the table covers every order parameter of the model: the two visiting orders of `upconvertWith`, the
+    key order of `featuresTextWith`, and the maps written by `writeMap` / `writeKerning` -/
+theorem source_iteration_table_complete :
+    Generated.KernConsts.iteratedCollections.map (·.1) =
+      ["groups_first", "groups_second", "feature_blocks", "Groups", "Kerning", "Kerning.seconds", "Layer.contents"] := by
+  decide
+
+/-- **source_robofab_keys_match_model**: the lib keys the feature conversion reads are the model's, and every
+    key it reads is removed from the lib afterwards -/
+theorem source_robofab_keys_match_model :
+    Generated.KernConsts.libDataKeys =
+      [("ps_hinting_data", robofabHintKey), ("feature_classes", robofabClassesKey),
+       ("feature_order", robofabOrderKey), ("features", robofabFeaturesKey)] ∧
+    (∀ e ∈ Generated.KernConsts.libDataKeys, e.2 ∈ Generated.KernConsts.removedKeys) := by decide
+
+/-! ## groups.plist, kerning.plist, contents.plist: sorted by construction -/
+
+/-- **btreemap_plists_sorted**: what is written from a `BTreeMap` (`writeMap`: groups.plist, contents.plist;
+    `writeKerning`: both levels of kerning.plist) has strictly ascending keys and does not depend on the
+    insertion history of the map. -/
+theorem btreemap_plists_sorted {β : Type} (m m' : List (Str × β)) (hn : (keys m).Nodup) (hp : m.Perm m') :
+    Sorted (keys (writeMap m)) ∧ writeMap m = writeMap m' ∧ ∀ k, lookup k (writeMap m) = lookup k m :=
+  ⟨sorted_keys_sortEntries m hn, sortEntries_perm hp hn, lookup_sortEntries m hn⟩
+
+theorem kerning_plist_sorted (k : Kerning) (hn : (keys k).Nodup) (hs : ∀ e ∈ k, (keys e.2).Nodup) :
+    Sorted (keys (writeKerning k)) ∧ ∀ e ∈ writeKerning k, Sorted (keys e.2) := by
+  have hk : keys (k.map (fun e => (e.1, sortEntries e.2))) = keys k := by simp [keys]
+  refine ⟨sorted_keys_sortEntries _ (by rw [hk]; exact hn), ?_⟩
+  intro e he
+  have hm := (sortEntries_perm_self _).mem_iff.mp he
+  obtain ⟨e0, he0, rfl⟩ := List.mem_map.mp hm
+  exact sorted_keys_sortEntries _ (hs e0 he0)
+
+end Kern
+
 /-! ## what is written: sorted dictionaries (`recursive_sort_plist_keys`, util.rs:11-18) -/
 namespace PlistM
 open StrMap
@@ -150,6 +200,19 @@ theorem written_lib_function_of_map {v v' : PV} (h : Reorder v v') (hw : WF v) :
     sortRec v = sortRec v' ∧ writtenKeys (sortRec v) = writtenKeys (sortRec v') := by
   have := sortRec_reorder h hw
   exact ⟨this, by rw [this]⟩
+
+/-- **reorder_implies_eq**: a lib rebuilt in another insertion order (at the dictionaries the sort reaches)
+    compares equal to the original under `plist::Value::eq` — for values whose dictionaries have distinct
+    keys at every depth, also inside arrays (`WFAll`: what `plist::Dictionary` guarantees). -/
+theorem reorder_implies_eq {v v' : PV} (h : Reorder v v') (hw : WFAll v) : pvEq v v' = true :=
+  pvEq_of_reorder h hw
+
+/-- **equal_fonts_by_reorder_written_identically**: the class of `==`-equal libs for which the full
+    statement holds — equal by reordering where the sort reaches: they compare equal *and* are written
+    identically.  What is left of `==` (reordering inside arrays) is the counterexample below. -/
+theorem equal_fonts_by_reorder_written_identically {v v' : PV} (h : Reorder v v') (hw : WFAll v) :
+    pvEq v v' = true ∧ sortRec v = sortRec v' :=
+  ⟨pvEq_of_reorder h hw, sortRec_reorder h (wf_of_wfAll v hw)⟩
 
 def libA : PV := .dict [("a".toList, .arr [.dict [("y".toList, .int 1), ("x".toList, .int 2)]])]
 def libB : PV := .dict [("a".toList, .arr [.dict [("x".toList, .int 2), ("y".toList, .int 1)]])]
